@@ -229,6 +229,10 @@ impl RawPeer {
     pub fn reset(&self) {
         self.conn.reset();
     }
+    /// shutdown(SHUT_WR): the library reads end-of-stream, this peer keeps reading
+    pub fn half_close(&self) {
+        self.conn.shutdown_write(self.side);
+    }
     /// orderly close
     pub fn close(self) {
         rt::count("fault_peer_close");
